@@ -132,7 +132,7 @@ var Kinds = []string{"readers3", "kmeans", "readers2", "heightmap", "readers3", 
 	"readers3", "c12:dc", "readers2", "c12:ms", "readers3", "c12:raster", "render", "c12:mcsearch",
 	"readers3", "kmeans", "readers2", "heightmap", "readers3", "objbuild", "render", "c12:mc",
 	"readers3", "c12:dc", "readers2", "c12:ms", "readers3", "c12:raster", "render", "c12:mcsearch",
-	"readers3", "kmeans", "readers2", "heightmap", "readers3", "objbuild", "render", "c12:mcflat",
+	"coldstart", "kmeans", "readers2", "heightmap", "readers3", "objbuild", "render", "c12:mcflat",
 	"readers3", "c12:dc", "readers2", "c12:ms", "readers3", "c12:raster", "c12:dcbig", "c12:mcsearch"}
 
 func RunCase(t *testing.T, c *Case, work, sched *choice.Source, st *Stats) (fs []Finding) {
